@@ -164,6 +164,9 @@ def main(argv=None):
                     json.dump(spec, f)
                 extra = dict(getattr(mod, "ENV", {}))
                 extra.update(spec.get("env", {}) if isinstance(spec, dict) else {})
+                # string hashing (hence the iteration order of sets of strings) differs from shard to shard and seed to seed, so
+                # that order-dependent behaviour is explored; the value is recorded in every replay file
+                extra.setdefault("PYTHONHASHSEED", str(hashseed_of(args.seed, i)))
                 log = open(os.path.join(tmp, f"log{i}.txt"), "w")
                 p = subprocess.Popen([boot.PY, "-m", "vlib.worker", prop, args.tier, str(args.seed), str(i),
                                       spec_path, out_path], env=boot.child_env(extra), cwd=boot.VERIF,
@@ -195,6 +198,10 @@ def main(argv=None):
     return finish(mod, prop, args, results, failures, time.time() - t0)
 
 
+def hashseed_of(seed, shard):
+    return (int(seed) * 1009 + int(shard)) % 4294967295
+
+
 def finish(mod, prop, args, results, failures, wall):
     digests, nontrivial = set(), set()
     counters, sets, samples, viols, notes = {}, {}, [], [], []
@@ -212,6 +219,8 @@ def finish(mod, prop, args, results, failures, wall):
         for s in r["samples"]:
             if len(samples) < 8:
                 samples.append(s)
+        for v in r["violations"]:
+            v["hashseed"] = hashseed_of(args.seed, r["shard"])
         viols.extend(r["violations"])
         notes.extend(r["notes"])
 
@@ -314,6 +323,11 @@ def replay(prop, path):
     with open(path) as f:
         data = json.load(f)
     w = data["witness"]
+    hs = w.get("hashseed")
+    if hs is not None and os.environ.get("PYTHONHASHSEED") != str(hs) and not os.environ.get("VERIF_REPLAY_CHILD"):
+        # string hashing is fixed at interpreter start: replay in a child started with the recorded value
+        env = boot.child_env({"PYTHONHASHSEED": str(hs), "VERIF_REPLAY_CHILD": "1"})
+        return subprocess.run([boot.PY, "-m", "vlib.runner", prop, "--replay", path, "--repo", boot.REPO], env=env, cwd=boot.VERIF).returncode
     mod = importlib.import_module(f"vlib.props.{prop.lower()}")
     boot.import_graphiq()
     ctx = Ctx(prop, data.get("tier", "quick"), data.get("seed", 0), -1)
